@@ -5,19 +5,30 @@ import LaunchpadModel.Model.Proto
 Driver for C16 (ETH airdrop). Byte strings travel as `x<lower-case hex>` (`x` = empty string); lists of byte
 strings as `x..,x..` or `-`. One output line per input line.
 
+Output lines are `primary ## outside-projection` (core.rs): only `primary` decides agreement.
+
 World lines
-* `case <name> wl=<0|1> wlimit=<n> admin=<x>`          reset; the minter has (wl=1) a collection whitelist with
-                                                        that member limit and that single admin, mutable
+* `case <name> nwl=<0|1|2> wl=<0|1> wlimit=<n> wlimit2=<n> admin=<x> now=<t> wlstart=<t> [strict=…]`
+      reset; `nwl` collection whitelists exist (ids 1, 2; member limits `wlimit`, `wlimit2`; that single admin, mutable,
+      start time `wlstart`); `wl=1`: the minter points to whitelist 1; block time `now`
 * `fund to=<x> amt=<n>`                                 → `ok s=<bal to>`
 * `inst sender=<x> funds=<d:a,…|-> amount=<n> limit=<n> tpl=<x> addrs=<xs> self=<x|->`
-                                                        → `ok b=<bal self> s=<bal sender>` | `err s=<bal sender>`
+                                                        → `ok b=<bal self> ## s=<bal sender>` | `err ## s=<bal sender>`
 * `claim sender=<x> eth=<x> sig=<x> h=<x|-> rs=<x|-> rec=<n|-> pk=<x|-> ver=<0|1|->`
       (`h … ver` are the harness's independently computed primitive results = the `Crypto` witness; Keccak is
       computed here, so a wrong claim text / envelope / digest makes the witness lookup fail)
-                                                        → `ok|err b=<bal self> s=<bal sender> c=<count eth>
-                                                           m=<sender on collection wl> n=<#members> e=<eligible>`
-* `cwl_add sender=<x> who=<x>` / `cwl_rm sender=<x> who=<x>`   → `ok|err n=<#members> m=<who member>`
-* `cwl_admins sender=<x> admins=<xs>`                   → `ok|err`
+                                                        → `ok|err b=<bal self> s=<bal sender> m=<sender on the attached
+                                                           collection wl> e=<eligible> ## c=<count eth> n=<#members>`
+* `cwl_add|cwl_rm sender=<x> who=<x> res=<ok|err>`, `cwl_admins sender=<x> admins=<xs> res=…`, `cwl_freeze sender=<x> res=…`
+      administration of the ATTACHED collection whitelist (environment of this property; the rules are sg-whitelist's).
+      `res` = what the implementation did: the state follows it (through `EnvOp.setCwl` where the model's own rule
+      would have decided otherwise); the model's own verdict is printed outside the projection
+                                                        → `m=<who member>` (`cwl_admins`/`cwl_freeze`: `a=<#admins>`) `## ok|err n=<#members>`
+* `set_wl id=<k> res=<ok|err>`                          minter `SetWhitelist` to whitelist `k` → `wl=<attached id, 0 none>`
+* `time t=<nanos>`                                      → `ok`
+* `exec_raw kind=<exec|sudo|migrate> target=<airdrop|immutable> sender=<x> json=<x>`
+      any message other than `ClaimAirdrop` (`Op.other`)  → `raw b=<bal self> el=<distinct listed, all eligible> x=0 cnt=<AddressCount>
+                                                           lim=<limit> ## err`
 * `q_elig eth=<x>`                                      → `ok 0|1` | `err`
 * `q_imm`                                               → `ok count=<distinct listed> limit=<per-address limit>` | `err`
 * `q_minter`                                            → `ok 1` (GetMinter returns the configured minter) | `err`
@@ -77,21 +88,44 @@ def cryptoOf (ws : List String) : Option Crypto := do
 structure DS where
   env : Env
   st : Option State
+  /-- the collection whitelists by id (the attached one's current state lives in `env.cwl`; its entry here is stale) -/
+  store : List (Nat × CollWl) := []
+  /-- id of the whitelist the minter points to (0 = none) -/
+  cur : Nat := 0
 
 def DS.init : DS := { env := { bal := fun _ => 0, cwl := none }, st := none }
+
+def storeGet (l : List (Nat × CollWl)) (k : Nat) : Option CollWl := (l.find? (·.1 == k)).map (·.2)
+def storePut (l : List (Nat × CollWl)) (k : Nat) (w : CollWl) : List (Nat × CollWl) := (k, w) :: l.filter (·.1 != k)
 
 def DS.curEnv (d : DS) : Env := match d.st with | some s => s.env | none => d.env
 
 def members (e : Env) : List Bytes := match e.cwl with | some w => w.members | none => []
 
+def noCrypto : Crypto := { keccak := id, recover := fun _ _ _ => none, verify := fun _ _ _ => none }
+
 def envStep (d : DS) (op : EnvOp) : DS × Bool :=
   match d.st with
-  | some s => match step { keccak := id, recover := fun _ _ _ => none, verify := fun _ _ _ => none } s (.env op) with
+  | some s => match step noCrypto s (.env op) with
     | .ok s' => ({ d with st := some s' }, true)
     | .error _ => (d, false)
   | none => match d.env.step op with
     | .ok e' => ({ d with env := e' }, true)
     | .error _ => (d, false)
+
+/-- administration of the attached whitelist: the model's own rule gives `mok`; the state follows what the
+implementation did (`res`), through `EnvOp.setCwl` with the forced effect where the two differ -/
+def envStepWitnessed (d : DS) (res : Bool) (op : EnvOp) (force : CollWl → CollWl) : DS × Bool :=
+  let (d', mok) := envStep d op
+  if mok == res then (d', mok)
+  else if res then ((envStep d (.setCwl (d.curEnv.cwl.map force))).1, mok)
+  else (d, mok)
+
+def okKv (ws : List String) : Option Bool :=
+  match kv ws "res" with
+  | some "ok" => some true
+  | some "err" => some false
+  | _ => none
 
 def coinsOf (l : List (Nat × Nat)) : List Coin := l.map fun (d, a) => ⟨d, a⟩
 
@@ -101,8 +135,15 @@ def c16Line (d : DS) (line : String) : DS × String :=
     match ws.head? with
     | some "case" => do
       let wl ← boolKv ws "wl"; let lim ← natKv ws "wlimit"; let adm ← bytesKv ws "admin"
-      let cwl := if wl then some { members := [], memberLimit := lim, admins := [adm], mutable := true : CollWl } else none
-      pure ({ env := { bal := fun _ => 0, cwl := cwl }, st := none }, "case")
+      let nwl := (natKv ws "nwl").getD (if wl then 1 else 0)
+      let lim2 := (natKv ws "wlimit2").getD lim
+      let now := (natKv ws "now").getD 0
+      let start := (natKv ws "wlstart").getD (now + 1)
+      let mk (l : Nat) : CollWl := { members := [], memberLimit := l, admins := [adm], mutable := true, start := start }
+      let store := (if nwl ≥ 1 then [(1, mk lim)] else []) ++ (if nwl ≥ 2 then [(2, mk lim2)] else [])
+      let att := wl && nwl ≥ 1
+      pure ({ env := { bal := fun _ => 0, cwl := if att then some (mk lim) else none, now := now }, st := none,
+              store := store, cur := if att then 1 else 0 }, "case")
     | some "fund" => do
       let to ← bytesKv ws "to"; let amt ← natKv ws "amt"
       let (d', _) := envStep d (.fund to amt)
@@ -117,8 +158,8 @@ def c16Line (d : DS) (line : String) : DS × String :=
         -- on failure the implementation creates no contract: `self=-`; the model must fail on its own
         match instantiate d.env (self.getD []) sender (coinsOf funds)
                 { template := tpl, amount := amount, addresses := addrs, perAddressLimit := limit } with
-        | .ok s => pure ({ d with st := some s }, s!"ok b={s.env.bal s.self} s={s.env.bal sender}")
-        | .error _ => pure (d, s!"err s={d.env.bal sender}")
+        | .ok s => pure ({ d with st := some s }, s!"ok b={s.env.bal s.self} ## s={s.env.bal sender}")
+        | .error _ => pure (d, s!"err ## s={d.env.bal sender}")
     | some "claim" => do
       let sender ← bytesKv ws "sender"; let eth ← bytesKv ws "eth"; let sig ← bytesKv ws "sig"
       let C ← cryptoOf ws
@@ -129,19 +170,54 @@ def c16Line (d : DS) (line : String) : DS × String :=
           | .ok s' => (s', true)
           | .error _ => (s, false)
         pure ({ d with st := some s' },
-          s!"{if okk then "ok" else "err"} b={s'.env.bal s'.self} s={s'.env.bal sender} c={s'.counts eth} m={b01 ((members s'.env).contains sender)} n={(members s'.env).length} e={b01 (airdropEligible s' eth)}")
+          s!"{if okk then "ok" else "err"} b={s'.env.bal s'.self} s={s'.env.bal sender} m={b01 ((members s'.env).contains sender)} e={b01 (airdropEligible s' eth)} ## c={s'.counts eth} n={(members s'.env).length}")
     | some "cwl_add" => do
-      let sender ← bytesKv ws "sender"; let who ← bytesKv ws "who"
-      let (d', okk) := envStep d (.cwlAdd sender who)
-      pure (d', s!"{if okk then "ok" else "err"} n={(members d'.curEnv).length} m={b01 ((members d'.curEnv).contains who)}")
+      let sender ← bytesKv ws "sender"; let who ← bytesKv ws "who"; let res ← okKv ws
+      let (d', mok) := envStepWitnessed d res (.cwlAdd sender who)
+        (fun w => if w.members.contains who then w else { w with members := who :: w.members })
+      pure (d', s!"m={b01 ((members d'.curEnv).contains who)} ## {if mok then "ok" else "err"} n={(members d'.curEnv).length}")
     | some "cwl_rm" => do
-      let sender ← bytesKv ws "sender"; let who ← bytesKv ws "who"
-      let (d', okk) := envStep d (.cwlRemove sender who)
-      pure (d', s!"{if okk then "ok" else "err"} n={(members d'.curEnv).length} m={b01 ((members d'.curEnv).contains who)}")
+      let sender ← bytesKv ws "sender"; let who ← bytesKv ws "who"; let res ← okKv ws
+      let (d', mok) := envStepWitnessed d res (.cwlRemove sender who)
+        (fun w => { w with members := w.members.filter (· != who) })
+      pure (d', s!"m={b01 ((members d'.curEnv).contains who)} ## {if mok then "ok" else "err"} n={(members d'.curEnv).length}")
     | some "cwl_admins" => do
-      let sender ← bytesKv ws "sender"; let admins ← bytesListKv ws "admins"
-      let (d', okk) := envStep d (.cwlAdmins sender admins)
-      pure (d', if okk then "ok" else "err")
+      let sender ← bytesKv ws "sender"; let admins ← bytesListKv ws "admins"; let res ← okKv ws
+      let (d', mok) := envStepWitnessed d res (.cwlAdmins sender admins) (fun w => { w with admins := admins })
+      let na := match d'.curEnv.cwl with | some w => w.admins.length | none => 0
+      pure (d', s!"a={na} ## {if mok then "ok" else "err"}")
+    | some "cwl_freeze" => do
+      let sender ← bytesKv ws "sender"; let res ← okKv ws
+      let (d', mok) := envStepWitnessed d res (.cwlFreeze sender) (fun w => { w with mutable := false })
+      let na := match d'.curEnv.cwl with | some w => w.admins.length | none => 0
+      pure (d', s!"a={na} ## {if mok then "ok" else "err"}")
+    | some "set_wl" => do
+      let k ← natKv ws "id"; let res ← okKv ws
+      if ¬ res then pure (d, s!"wl={d.cur}")
+      else
+        match (if k == d.cur then d.curEnv.cwl else storeGet d.store k) with
+        | none => none
+        | some w =>
+          -- park the state of the whitelist that is being detached, attach the other one
+          let store := match d.curEnv.cwl with
+            | some wc => if d.cur != 0 then storePut d.store d.cur wc else d.store
+            | none => d.store
+          let (d', _) := envStep { d with store := store } (.setCwl (some w))
+          pure ({ d' with cur := k }, s!"wl={k}")
+    | some "time" => do
+      let t ← natKv ws "t"
+      let (d', _) := envStep d (.time t)
+      pure (d', "ok")
+    | some "exec_raw" => do
+      let sender ← bytesKv ws "sender"
+      match d.st with
+      | none => pure (d, "raw b=0 el=0 x=0 cnt=0 lim=0 ## err")
+      | some s =>
+        let (s', okk) := match step noCrypto s (.other sender) with
+          | .ok s' => (s', true)
+          | .error _ => (s, false)
+        pure ({ d with st := some s' },
+          s!"raw b={s'.env.bal s'.self} el={addressCount s'} x=0 cnt={addressCount s'} lim={s'.perAddressLimit} ## {if okk then "ok" else "err"}")
     | some "q_elig" => do
       let eth ← bytesKv ws "eth"
       match d.st with
